@@ -1204,6 +1204,25 @@ def _slice_table(func):
             return block(stmt.body, tru) + block(stmt.orelse, fal)
         if isinstance(stmt, ast.Return):
             val = stmt.value
+            if isinstance(val, ast.Call) and call_name(val) == 'slice' and \
+                    any(isinstance(a, ast.IfExp) for a in val.args):
+                # conditional expressions written in place (or inlined by
+                # the normal form): evaluate them as temporaries first
+                import copy as _copy
+                val = _copy.copy(val)
+                val.args = list(val.args)
+                states = [st]
+                for pos, arg in enumerate(val.args):
+                    if isinstance(arg, ast.IfExp):
+                        nxt = []
+                        for cur in states:
+                            nxt += assign(f'__arg{pos}', arg, cur)
+                        states = nxt
+                        val.args[pos] = ast.Name(id=f'__arg{pos}',
+                                                 ctx=ast.Load())
+                for cur in states:
+                    results.append((cur, value(val, cur), stmt))
+                return []
             if isinstance(val, ast.IfExp):
                 tru, fal = cond(val.test, st)
                 for cur in tru:
